@@ -120,7 +120,7 @@ pub fn decode_history(data: &[u8]) -> History {
         };
         ops.push(op);
     }
-    History { zeros: true, price, profile: Profile::Small, ts_mode, pool, ops, ghost: None, hold: head & 2 != 0, gen_start: if head & 4 != 0 { u64::MAX - 3 } else { 0 }, wrap_ok: false, max_rounds: 0 }
+    History { zeros: true, price, profile: Profile::Small, ts_mode, pool, ops, ghost: None, hold: head & 2 != 0, gen_start: if head & 4 != 0 { u64::MAX - 3 } else { 0 }, wrap_ok: false, max_rounds: 0, read_every: if head & 8 != 0 { Some(crate::seq::ALL_READS[(head >> 4) as usize % 9]) } else { None } }
 }
 
 fn oracle_filter() -> Vec<Oracle> {
